@@ -2,11 +2,11 @@
    theorem cannot be weakened in its own file without this file failing to compile. *)
 From BT Require Import Base.Util.
 From BT Require Model.Merge Model.Fill Model.MergeTool Proofs.MergeSig Proofs.MergeInto Proofs.MergeWin Proofs.MergeMany
-  Proofs.FillOk Proofs.MergeToolOk Properties.C15.
+  Proofs.FillOk Proofs.MergeToolOk Proofs.MergeToolRun Generated.Consts Properties.C15.
 
 Module PinC15.
 Import Model.Merge Model.Fill Model.MergeTool Proofs.MergeSig Proofs.MergeInto Proofs.MergeWin Proofs.MergeMany
-  Proofs.FillOk Proofs.MergeToolOk Properties.C15.
+  Proofs.FillOk Proofs.MergeToolOk Proofs.MergeToolRun Generated.Consts Properties.C15.
 Local Open Scope N_scope.
 Check (C15_merge_into : forall one two,
   v_start one < v_end one -> v_start two < v_end two ->
@@ -18,6 +18,10 @@ Check (C15_merge_into_no_overlap : forall one two,
   v_end one <= v_start two \/ v_end two <= v_start one -> merge_into one two = Panic).
 Check (C15_merge_many : forall W vss, 0 < W -> Forall (sorted_from 0) vss ->
   exists out, merge_sections_many W (map (map IV) vss) = Ok (map IV out) /\
+    sorted_from 0 out /\ Forall (fun v => v_val v <> 0%Z) out /\
+    forall x, sig out x = nz_opt (ssum vss x)).
+Check (C15_merge_many_code_window : forall vss, Forall (sorted_from 0) vss ->
+  exists out, merge_sections_many MERGE_DATA_SIZE (map (map IV) vss) = Ok (map IV out) /\
     sorted_from 0 out /\ Forall (fun v => v_val v <> 0%Z) out /\
     forall x, sig out x = nz_opt (ssum vss x)).
 Check (C15_fill : forall vs, sorted_from 0 vs ->
@@ -46,8 +50,31 @@ Check (C15_output_names : forall stem suf t name,
   detect_output None (stem ++ [46; 98; 119]) = Some OBigWig /\
   detect_output None (stem ++ [46; 98; 105; 103; 87; 105; 103]) = Some OBigWig /\
   detect_output None (stem ++ [46; 98; 101; 100; 71; 114; 97; 112; 104]) = Some OBedGraph).
+Check (C15_tool_run : forall W maxfds files thr adj clip ty name,
+  0 < W -> (2 <= maxfds)%nat -> files_ok files ->
+  (exists table,
+     chrom_table (all_names files) files [] = Ok table /\
+     Forall (entry_ok files) table /\
+     (forall f c, In f files -> In c f -> bt_has (fst (fst c)) table = true) /\
+     match detect_output ty name with
+     | None => tool_run W maxfds files thr adj clip ty name = Ok None
+     | Some t => exists outs, tool_run W maxfds files thr adj clip ty name = Ok (Some (t, rows_spec table outs)) /\
+                              Forall2 (out_ok thr adj clip) table outs
+     end)
+  \/ (chrom_table (all_names files) files [] = Err 1 /\ tool_run W maxfds files thr adj clip ty name = Err 1)).
+Check (C15_outputs_agree : forall W maxfds files thr adj clip ty1 name1 ty2 name2 t1 rows1 t2 rows2,
+  tool_run W maxfds files thr adj clip ty1 name1 = Ok (Some (t1, rows1)) ->
+  tool_run W maxfds files thr adj clip ty2 name2 = Ok (Some (t2, rows2)) -> rows1 = rows2).
 
 (* the definitions the statements rest on, pinned by value *)
+Check (eq_refl : files_ok = fun files => Forall (Forall (fun c => sorted_from 0 (snd c) /\ end_from 0 (snd c) <= snd (fst c))) files).
+Check (eq_refl : entry_ok = fun files e =>
+  snd e = chrom_inputs (fst (fst e)) files /\
+  Forall (sorted_from 0) (snd e) /\ Forall (fun vs => end_from 0 vs <= snd (fst e)) (snd e)).
+Check (eq_refl : chrom_inputs = fun name files =>
+  flat_map (fun f => match find_chrom name f with Some c => [snd c] | None => [] end) files).
+Check (eq_refl : out_ok = fun thr adj clip e out =>
+  sorted_from 0 out /\ forall x, sig out x = tool_expected (snd e) thr adj clip x).
 Check (eq_refl : inb = fun v x => (v_start v <=? x) && (x <? v_end v)).
 Check (eq_refl : nz_opt = fun z => if isz z then None else Some z).
 Check (eq_refl : isz = fun z => Z.eqb z 0).
